@@ -349,6 +349,13 @@ func VerifyPKCS1v15(pub *PublicKey, hash crypto.Hash, hashed []byte, sig []byte)
 	// 	return boring.VerifyRSAPKCS1v15(bkey, hash, hashed, sig)
 	// }
 
+	// ZCrypto - sanity check the key first, as the encryption and decryption
+	// entry points do: a nil modulus or a nil, zero or negative exponent
+	// would otherwise panic in Size or big.Int.Exp.
+	if err := checkPub(pub); err != nil {
+		return err
+	}
+
 	// RFC 8017 Section 8.2.2: If the length of the signature S is not k
 	// octets (where k is the length in octets of the RSA modulus n), output
 	// "invalid signature" and stop.
